@@ -104,6 +104,16 @@ func Run(r *ev.Run, replay string) {
 					}
 				}
 			}
+			// Integer-edge families: a generated string with one component
+			// running over 0, 1 and numbers around 2^31, 2^32, 2^63, 2^64.
+			for _, s := range gen.ExtremeFamilies(r.Rand(sg.name+"/edges"), sg.gen, n/20, nil) {
+				if !seen[s] {
+					seen[s] = true
+					if one(r, sg, s, groups) {
+						r.Count("integer_edge_versions:"+sg.name, 1)
+					}
+				}
+			}
 			sameCanon(r, sg, groups)
 		}(sg)
 	}
